@@ -27,6 +27,8 @@ pub struct SuspenseScope {
     /// Signal that is set to `true` when the view is rendered and streamed into the buffer.
     /// This is unused on the client side.
     pub sent: Signal<bool>,
+    /// Dropped together with the scope, which releases whoever still waits for the scope.
+    gone: Signal<Vec<oneshot::Sender<()>>>,
 }
 
 impl SuspenseScope {
@@ -45,17 +47,19 @@ impl SuspenseScope {
             tasks_remaining,
             parent: parent.map(create_signal),
             sent: create_signal(false),
+            gone: create_signal(Vec::new()),
         }
     }
 
     /// Implementation for [`Self::is_loading`]. This is used to recursively check whether we are
     /// loading or not.
     fn _is_loading(self) -> bool {
-        self.tasks_remaining.get() > 0
+        // A scope that has been disposed is not loading anything.
+        (self.tasks_remaining.is_alive() && self.tasks_remaining.get() > 0)
             || self
                 .parent
                 .as_ref()
-                .is_some_and(|parent| parent.get()._is_loading())
+                .is_some_and(|parent| parent.is_alive() && parent.get()._is_loading())
     }
 
     /// Returns a signal representing whether we are currently loading this suspense or not.
@@ -67,7 +71,14 @@ impl SuspenseScope {
 
     /// Returns a future that resolves once the scope is no longer loading.
     pub async fn until_finished(self) {
+        // A scope that has been disposed is not loading anything.
+        if !self.tasks_remaining.is_alive() {
+            return;
+        }
         let (tx, rx) = oneshot::channel();
+        // If the scope is disposed while we wait, this sender is dropped with it.
+        let (gone_tx, gone_rx) = oneshot::channel::<()>();
+        self.gone.update_silent(|gone| gone.push(gone_tx));
         let mut tx = Some(tx);
         create_effect(move || {
             if !self._is_loading() {
@@ -78,7 +89,8 @@ impl SuspenseScope {
             }
         });
 
-        rx.await.unwrap()
+        // Either the scope is no longer loading, or it is gone.
+        let _ = futures::future::select(rx, gone_rx).await;
     }
 }
 
